@@ -389,3 +389,186 @@ theorem norm_escape_spelling_string_pa (puny : Str → Str) (o : Normalize.Opts)
     (norm_escape_spelling_string puny o hl hts ir g path' Q' F' hpath hq hf hg hg' hport)
 
 end Ural.Props.C04
+
+namespace Ural.Props.C05
+open Ural Ural.Py Ural.UrlParts Ural.Quote Ural.Normalize Ural.Fingerprint Ural.NormBridge Ural.Platform
+
+/-! ## (a, continued) C05 / C06 on strings with the option on, off platform hosts -/
+
+/-- `normalize_string_split` with `platform_aware=True`, `u` not being a facebook / youtube url -/
+theorem normalize_string_split_pa (puny : Str → Str) (o : Normalize.Opts) (ir : Bool) (g : UrlG) (u : Str)
+    (po : Option Nat) (hg : InClassOf ir g u) (hpo : portVal g.port = some po) (hnp : NotPlatform puny ir u) :
+    normalizeUrlStringSplitPA puny o ir u = .inr (normParts puny o g.proto.hasProto (g.record po)) ∧
+    normalizeUrlStringPA puny o ir u =
+      finalString o g.proto.hasProto (normParts puny o g.proto.hasProto (g.record po)) := by
+  rw [(normalize_pa_of_not_platform puny o ir u hnp).1, (normalize_pa_of_not_platform puny o ir u hnp).2]
+  exact normalize_string_split puny o ir g u po hg hpo
+
+/-- **`normalize_url(…, platform_aware=True)` only deletes, off platform hosts**: the clauses of
+`normalize_only_deletes_string` for every string of the class that is no facebook / youtube url -/
+theorem normalize_only_deletes_string_pa (puny : Str → Str) (o : Normalize.Opts) (ir : Bool) (g : UrlG) (u : Str)
+    (po : Option Nat) (hg : InClassOf ir g u) (hpo : portVal g.port = some po) (hnp : NotPlatform puny ir u) :
+    ∃ c : Comps,
+      normalizeUrlStringSplitPA puny o ir u =
+        .inr { scheme := c.scheme, netloc := unsplitNetloc c.user c.pass c.host c.port,
+               path := c.path, query := safeSerializeQsl c.qsl, fragment := some c.fragment } ∧
+      (g.host ≠ [] → '%' ∉ g.host →
+        ∃ h', c.host = some h' ∧ HostDel puny o.normalizeAmp (lower g.host) h') ∧
+      (g.host = [] → c.host = none) ∧
+      (∀ n, po = some n → n ≠ 80 → n ≠ 443 → c.port = some n) ∧
+      (po = some 80 ∨ po = some 443 ∨ po = none → c.port = none) ∧
+      (∃ pre, pre.Sublist (resolvedPath o g.path) ∧ c.path = finPath o pre) ∧
+      (o.lowercase = false → o.quoted = false → o.sortQuery = false →
+        c.qsl.Sublist (inputItems o (g.record po))) := by
+  rw [(normalize_pa_of_not_platform puny o ir u hnp).2]
+  exact normalize_only_deletes_string puny o ir g u po hg hpo
+
+theorem ensured_eq (ir : Bool) (x : Str) : ensured ir x = ensureHttp (resolvedClean ir x) := rfl
+
+/-- what is parsed, for any branch `platform` -/
+theorem prepared_eq (platform : Str → Str) (ir : Bool) (u : Str) :
+    prepared platform ir u = (platform (ensured ir u), hasProtocol (resolvedClean ir u)) := rfl
+
+/-- `normalize_url(u, unsplit=False)` for any branch `platform`: the component rules on the parse
+of what the branch returns (`has_protocol` is that of `u`) -/
+theorem normalizeUrlStringSplit_platform (puny : Str → Str) (platform : Str → Str) (o : Normalize.Opts)
+    (ir : Bool) (u : Str) :
+    normalizeUrlStringSplit puny platform o ir u =
+      match parseUrl (platform (ensured ir u)) with
+      | none => .inl u
+      | some p => .inr (normParts puny o (hasProtocol (resolvedClean ir u)) p) := by
+  rw [normalizeUrlStringSplit_eq]
+  rfl
+
+theorem normalizeUrlString_platform (puny : Str → Str) (platform : Str → Str) (o : Normalize.Opts)
+    (ir : Bool) (u : Str) :
+    normalizeUrlString puny platform o ir u =
+      match parseUrl (platform (ensured ir u)) with
+      | none => u
+      | some p => finalString o (hasProtocol (resolvedClean ir u))
+          (normParts puny o (hasProtocol (resolvedClean ir u)) p) := by
+  rw [normalizeUrlString_eq]
+  rfl
+
+/-- an unparseable string is returned unchanged, option on (every string; instance of
+`normalize_unparseable_string`, which holds for every `platform`) -/
+theorem normalize_unparseable_string_pa (puny : Str → Str) (o : Normalize.Opts)
+    (ir : Bool) (u : Str) (h : parseUrl (platformConcrete puny (ensured ir u)) = none) :
+    normalizeUrlStringPA puny o ir u = u ∧ normalizeUrlStringSplitPA puny o ir u = .inl u := by
+  unfold normalizeUrlStringPA normalizeUrlStringSplitPA
+  rw [normalizeUrlString_platform, normalizeUrlStringSplit_platform, h]
+  exact ⟨rfl, rfl⟩
+
+/-! ## (c) with the option on: deletions of the pieces of the CANONICAL platform url -/
+
+/-- the url that is parsed under `platform_aware=True`: what the branch makes of the resolved,
+cleaned, protocol-ensured string — `p.url` / `normalize_youtube_url(url)` for a platform url that
+is recognised, the string itself otherwise -/
+def canonicalOf (puny : Str → Str) (ir : Bool) (u : Str) : Str := platformConcrete puny (ensured ir u)
+
+/-- `normalize_url(u, platform_aware=True, unsplit=False)` = the component rules on the parse of
+the canonical platform url (`has_protocol` is that of `u`) -/
+theorem normalize_pa_split (puny : Str → Str) (o : Normalize.Opts) (ir : Bool) (u : Str) :
+    normalizeUrlStringSplitPA puny o ir u =
+      match parseUrl (canonicalOf puny ir u) with
+      | none => .inl u
+      | some p => .inr (normParts puny o (hasProtocol (resolvedClean ir u)) p) := by
+  unfold normalizeUrlStringSplitPA canonicalOf
+  exact normalizeUrlStringSplit_platform puny (platformConcrete puny) o ir u
+
+/-- the protocol flag only matters when `strip_protocol` is off -/
+theorem normParts_hasProto_irrelevant (puny : Str → Str) (o : Normalize.Opts) (a b : Bool) (p : Parsed)
+    (h : o.stripProtocol = true ∨ a = b) :
+    normParts puny o a p = normParts puny o b p ∧
+    finalString o a (normParts puny o a p) = finalString o b (normParts puny o b p) := by
+  rcases h with h | h
+  · have : normParts puny o a p = normParts puny o b p := by
+      unfold normParts normComps
+      simp only [h, Bool.true_or, if_true]
+    refine ⟨this, ?_⟩
+    rw [this]
+    unfold finalString
+    simp only [h, Bool.true_or]
+  · subst h; exact ⟨rfl, rfl⟩
+
+/-- **(c) `normalize_url(…, platform_aware=True)` only deletes — or rewrites first**: for EVERY
+string `u` (facebook / youtube urls included) whose canonical platform url is a string `g.str` of
+the grammar class, the result tuple is glued from components `c` that are deletions of the pieces
+**of the canonical url** (not of `u`): host = its host text lower-cased, decoded, minus whole
+irrelevant labels / a leading `amp-`; port = its port unless 80 / 443; path = final (un)quoting of
+a subsequence of its resolved path; query items = a subsequence of its unescaped items.  For a
+string the branch leaves alone this is C05's clause about `u` itself
+(`normalize_only_deletes_string_pa`); for a recognised facebook / youtube url the pieces are those
+of `p.url` / of the url template filled in by `normalize_youtube_url`. -/
+theorem normalize_pa_only_deletes_or_rewrites (puny : Str → Str) (o : Normalize.Opts) (ir : Bool)
+    (u : Str) (g : UrlG) (po : Option Nat)
+    (hw : g.wf = true) (hproto : g.proto.hasProto = true) (hsafe : NoUnsafe g.rest)
+    (hv : canonicalOf puny ir u = g.str) (hpo : portVal g.port = some po) :
+    ∃ c : Comps,
+      normalizeUrlStringSplitPA puny o ir u =
+        .inr { scheme := c.scheme, netloc := unsplitNetloc c.user c.pass c.host c.port,
+               path := c.path, query := safeSerializeQsl c.qsl, fragment := some c.fragment } ∧
+      (g.host ≠ [] → '%' ∉ g.host →
+        ∃ h', c.host = some h' ∧ HostDel puny o.normalizeAmp (lower g.host) h') ∧
+      (g.host = [] → c.host = none) ∧
+      (∀ n, po = some n → n ≠ 80 → n ≠ 443 → c.port = some n) ∧
+      (po = some 80 ∨ po = some 443 ∨ po = none → c.port = none) ∧
+      (∃ pre, pre.Sublist (resolvedPath o g.path) ∧ c.path = finPath o pre) ∧
+      (o.lowercase = false → o.quoted = false → o.sortQuery = false →
+        c.qsl.Sublist (inputItems o (g.record po))) := by
+  obtain ⟨e1, e2⟩ := parse_str g hw hsafe
+  have he : ensureHttp g.str = g.str := by
+    unfold ensureHttp; rw [e2, hproto]; rfl
+  rw [he] at e1
+  have hparse : parseUrl (canonicalOf puny ir u) = some (g.record po) := by
+    rw [hv, e1]; unfold UrlG.parsed; rw [hpo]; rfl
+  refine ⟨normComps puny o (hasProtocol (resolvedClean ir u)) (g.record po), ?_, ?_, ?_, ?_, ?_, ?_, ?_⟩
+  · rw [normalize_pa_split, hparse]; rfl
+  · intro hne hpct
+    have hh : (g.record po).hostname = some (lower g.host) := by
+      simp only [UrlG.record, UrlG.hostname, hne, if_false, lowerHost_of_no_pct hpct]
+    have hne' : lower g.host ≠ [] := by
+      intro e; apply hne; cases hx : g.host with
+      | nil => rfl
+      | cons c r => rw [hx] at e; simp [lower] at e
+    exact normalize_host_deletion_only puny o _ (g.record po) (lower g.host) hh hne'
+  · intro he
+    have hh : (g.record po).hostname = none := by simp [UrlG.record, UrlG.hostname, he]
+    exact (normalize_host_absent puny o _ (g.record po)).1 hh
+  · exact (normalize_port puny o _ (g.record po)).1
+  · exact (normalize_port puny o _ (g.record po)).2
+  · exact normalize_path_sublist puny o _ (g.record po)
+  · intro hl hq hs
+    exact normalize_query_subsequence puny o _ (g.record po) hl hq hs
+
+/-- **(c) the result is `normalize_url` (option off, no redirection step) of the canonical platform
+url**, whenever that url is clean (no control character, no white space at its ends, escapes in
+upper case), parses, and — the protocol flag being that of `u` — `strip_protocol` is on (the
+default) or `u` carries a protocol itself -/
+theorem normalize_pa_eq_normalize_canonical (puny : Str → Str) (o : Normalize.Opts) (ir : Bool) (u : Str)
+    (hc : Cleaned (canonicalOf puny ir u)) (hp : hasProtocol (canonicalOf puny ir u) = true)
+    (hs : o.stripProtocol = true ∨ hasProtocol (resolvedClean ir u) = true)
+    (hparse : parseUrl (canonicalOf puny ir u) ≠ none) :
+    normalizeUrlStringPA puny o ir u = normalizeUrlString puny id o false (canonicalOf puny ir u) := by
+  unfold normalizeUrlStringPA
+  rw [normalizeUrlString_platform, normalizeUrlString_platform]
+  unfold canonicalOf at hc hp hparse ⊢
+  generalize platformConcrete puny (ensured ir u) = cv at hc hp hparse ⊢
+  have hrc : resolvedClean false cv = cv := by
+    unfold resolvedClean
+    simp only [Bool.false_eq_true, if_false, hc.preClean]
+  have hen : ensured false cv = cv := by
+    rw [ensured_eq, hrc]
+    unfold ensureHttp
+    rw [hp]; rfl
+  simp only [id, hen, hrc, hp]
+  cases hx : parseUrl cv with
+  | none => exact absurd hx hparse
+  | some p =>
+    simp only
+    refine (normParts_hasProto_irrelevant puny o _ _ p ?_).2
+    rcases hs with hs | hs
+    · exact Or.inl hs
+    · exact Or.inr hs
+
+end Ural.Props.C05
